@@ -35,7 +35,10 @@ var lineSeps = []string{"", "\n", "\n", "\r\n", "<br>", "|", "\u2424", "--", "\n
 
 var sepPairs = []sepPair{{"", ""}, {"\n", "\n\n"}, {"", "\n\n"}, {"\r\n", "\r\n\r\n"}, {"<br>", "<p>"}, {"\n", "\n--\n"},
 	{"\n", "<P>\n"}, {"\n", "\n<P>"}, {"\n", "X\nY"}, {"\n", "\n\n\n"}, {"|", "||"}, {"<br>", "<br><p><br>"}, {"\n", "\n"},
-	{"ab", "abab"}, {"\n", "=\n=\n="}, {"\n", "--\n"}, {"\n", "\n* * *\n"}, {"\n", "\n\n--\n\n"}, {"<br>", "<hr><br>"}}
+	{"ab", "abab"}, {"\n", "=\n=\n="}, {"\n", "--\n"}, {"\n", "\n* * *\n"}, {"\n", "\n\n--\n\n"}, {"<br>", "<hr><br>"},
+	// a custom line separator with the paragraph separator left unset (it defaults to "\n\n",
+	// which then need not contain the line separator)
+	{"\r\n", ""}, {"<br>", ""}, {"|", ""}, {"\t", ""}}
 
 // separators made of line separators only (paragraph lines unambiguous)
 var cleanPairs = []sepPair{{"", ""}, {"\n", "\n\n"}, {"", "\n\n"}, {"\r\n", "\r\n\r\n"}, {"|", "||"}, {"\n", "\n\n\n"},
@@ -533,8 +536,86 @@ func (g *G) sameOr(o *rosed.Options) *rosed.Options {
 	return o
 }
 
+// nested: a selection, an edit of it that keeps its length (so that nothing about the
+// intermediate sub-editor looks edited from the outside), a selection inside the result, an
+// edit of that, then every way of reading the whole back: String() (observed at every step),
+// CommitAll, and Commit step by step
+func (g *G) nested(stream, id string, deg bool) Case {
+	lines := 2 + g.r.Intn(4)
+	var parts []string
+	for i := 0; i < lines; i++ {
+		l := strings.Repeat(" ", g.r.Intn(4))
+		for w := g.r.Intn(3); w >= 0; w-- {
+			if deg && g.chance(0.2) {
+				l += g.pick(niceClusters)
+			} else {
+				l += g.pick(asciiWords)
+			}
+			if w > 0 {
+				l += " "
+			}
+		}
+		parts = append(parts, l)
+	}
+	t := strings.Join(parts, "\n")
+	if g.chance(0.7) {
+		t += "\n"
+	}
+	c := Case{ID: id, Stream: stream, Flags: 1, Pool: []string{t}}
+	cur := 0
+	add := func(op Op) {
+		op.Recv = cur
+		c.Steps = append(c.Steps, op)
+		cur = len(c.Pool) + len(c.Steps) - 1
+	}
+	// the intermediate sub-editor
+	if g.chance(0.6) {
+		a := g.r.Intn(lines)
+		add(Op{Name: "lines", I: []int{a, a + 1 + g.r.Intn(2)}})
+	} else {
+		a := g.r.Intn(6)
+		add(Op{Name: "chars", I: []int{a, a + 2 + g.r.Intn(8)}})
+	}
+	// an edit that keeps the length
+	switch g.r.Intn(4) {
+	case 0:
+		add(Op{Name: "align", I: []int{1 + g.r.Intn(3), 1 + g.r.Intn(6)}})
+	case 1:
+		add(Op{Name: "overtype", I: []int{g.r.Intn(4), 0}, S: []string{g.pick([]string{"X", "YZ", "qqq", "\u00e9"})}})
+		c.Steps[len(c.Steps)-1].I = c.Steps[len(c.Steps)-1].I[:1]
+	case 2:
+		add(Op{Name: "overtype", I: []int{-1 - g.r.Intn(3)}, S: []string{g.pick([]string{"X", "YZ"})}})
+	default:
+		// no edit of the intermediate at all
+	}
+	// the inner sub-editor and its edit
+	if g.chance(0.7) {
+		a := g.r.Intn(3)
+		add(Op{Name: "chars", I: []int{a, a + 1 + g.r.Intn(4)}})
+	} else {
+		add(Op{Name: "linesto", I: []int{1}})
+	}
+	switch g.r.Intn(3) {
+	case 0:
+		add(Op{Name: "overtype", I: []int{0}, S: []string{g.pick([]string{"XY", "Q", "\U0001F642"})}})
+	case 1:
+		add(Op{Name: "insert", I: []int{g.r.Intn(3)}, S: []string{g.pick([]string{"++", "e\u0301", " "})}})
+	default:
+		add(Op{Name: "delete", I: []int{0, 1 + g.r.Intn(2)}})
+	}
+	inner := cur
+	add(Op{Name: "commitall"})
+	cur = inner
+	add(Op{Name: "commit"})
+	add(Op{Name: "commit"})
+	return c
+}
+
 // history: selections, edits, further selections and commits over a growing pool
 func (g *G) history(stream, id string, deg bool) Case {
+	if g.chance(0.2) {
+		return g.nested(stream, id, deg)
+	}
 	o := g.opts(cleanPairs, false)
 	ls, ps := optsSeps(o)
 	c := Case{ID: id, Stream: stream, Flags: 1}
